@@ -380,7 +380,7 @@ theorem lastReal_append_of_some (xs ys : List Tok) (t : Tok) (h : lastReal ys = 
 theorem first_toks (c : C) : ∃ t, firstReal (toks c) = some t ∧ t.sp.s = (span c).s := by
   induction c with
   | ident | int | str | unit | paren | lam | ite | letIn =>
-    exact ⟨_, by simp [toks, firstReal, isReal], by simp [span]⟩
+    simp [toks, firstReal, isReal, span]
   | comma a _ b iha _ =>
     obtain ⟨t, h, e⟩ := iha
     exact ⟨t, by simp only [toks]; exact firstReal_append_of_some _ _ _ h, by simp [span, e]⟩
@@ -416,7 +416,7 @@ theorem lastReal_snoc_cb (xs : List Tok) (t : Tok) (h : lastReal xs = some t) :
 
 theorem last_toks (c : C) : ∃ t, lastReal (toks c) = some t ∧ t.sp.e = (span c).e := by
   induction c with
-  | ident | int | str | unit => exact ⟨_, by simp [toks, lastReal, isReal], by simp [span]⟩
+  | ident | int | str | unit => simp [toks, lastReal, isReal, span]
   | paren l b r _ =>
     refine ⟨⟨.rp, r⟩, ?_, by simp [span]⟩
     have : toks (.paren l b r) = (⟨.lp, l⟩ :: toks b) ++ [⟨.rp, r⟩] := by simp [toks]
@@ -470,5 +470,42 @@ theorem spans_delimit (c : C) : extent (toks c) = some (span c) := by
   obtain ⟨a, ha, ea⟩ := first_toks c
   obtain ⟨b, hb, eb⟩ := last_toks c
   simp [extent, ha, hb, ea, eb]
+
+/-! ### Operator chains -/
+open GluonModel.Infix in
+def chainToks (arg : Nat → C) : List (Op × Nat) → List Tok
+  | [] => []
+  | (o, a) :: rest => ⟨.op o.name, dummy⟩ :: (toks (arg a) ++ chainToks arg rest)
+
+open GluonModel.Infix in
+theorem toks_ofChain (arg : Nat → C) (f : Nat) (rest : List (Op × Nat)) :
+    toks (ofChain arg f rest) = toks (arg f) ++ chainToks arg rest := by
+  induction rest generalizing f with
+  | nil => simp [ofChain, chainToks]
+  | cons p rest ih => obtain ⟨o, a⟩ := p; simp [ofChain, chainToks, toks, ih]
+
+open GluonModel.Infix in
+theorem chainToks_append (arg : Nat → C) (xs ys : List (Op × Nat)) :
+    chainToks arg (xs ++ ys) = chainToks arg xs ++ chainToks arg ys := by
+  induction xs with
+  | nil => simp [chainToks]
+  | cons p xs ih => obtain ⟨o, a⟩ := p; simp [chainToks, ih]
+
+open GluonModel.Infix in
+theorem toks_ofTree (arg : Nat → C) (t : Tree) :
+    toks (ofTree arg t) = toks (arg (flatten t).1) ++ chainToks arg (flatten t).2 := by
+  induction t with
+  | leaf a => simp [ofTree, flatten, chainToks]
+  | node l o r ihl ihr => simp [ofTree, flatten, toks, ihl, ihr, chainToks_append, chainToks]
+
+open GluonModel.Infix in
+theorem legal_ofChain (arg : Nat → C) (harg : ∀ a, Legal (arg a) ∧ lvl (arg a) ≤ 1) (f : Nat)
+    (rest : List (Op × Nat)) : Legal (ofChain arg f rest) ∧ lvl (ofChain arg f rest) ≤ 2 := by
+  induction rest generalizing f with
+  | nil => exact ⟨(harg f).1, by have := (harg f).2; simp only [ofChain]; omega⟩
+  | cons p rest ih =>
+    obtain ⟨o, a⟩ := p
+    exact ⟨by simp only [ofChain, Legal]; exact ⟨(harg f).1, (ih a).1, (harg f).2, (ih a).2⟩,
+      by simp [ofChain, lvl]⟩
 
 end GluonModel.ExprGrammar.Proofs
